@@ -22,6 +22,8 @@ func run(e *harness.Env) {
 		"{H1..H4, short paragraph (1 word / 3-word sentence), paragraph 3x the configured maximum, list-intro paragraph, flat list, nested list, 2x2 table, image with/without alt} " +
 		"x every cut into <=2 pages x {all 18 size configurations and presets on the plain variant; default/small/tiny on the variants " +
 		"headings-as-TOC-matched-paragraphs, offset page numbers, empty page first/middle/last} (length 4: 8 configurations on the plain variant, small on 3 variants); " +
+		"(di-table) 15 table shapes (1x1, header-only, Nx1, 2x3, 3x2, ragged rows wider/narrower than the header, empty cells, header without cells, 4x3 larger than the small maxima; one unique word set per cell) " +
+		"x every context of <=2 preceding and <=1 (thorough <=2) following elements over {H1,P,LP,IA,TB} x page cut before the table x all 18 size configurations; " +
 		"(di-nest) every heading-level sequence over H1..H4 of length <=5 (quick) / <=6 (thorough), one body element per heading; " +
 		"(layout) the same kind of sequences over what model.PageLayout can hold {H1..H4, paragraphs, lists} cut into <=3 pages x ChunkerConfig variants; " +
 		"(layout-nest) every heading-level sequence of length <=4 / <=5 x every subset of headings that have a body paragraph x two page packings. " +
@@ -38,6 +40,7 @@ func run(e *harness.Env) {
 	defer stop()
 	spaceDI(e)
 	spaceDINest(e)
+	spaceDITable(e)
 	spaceLayout(e)
 	spaceLayoutNest(e)
 }
@@ -436,6 +439,59 @@ func spaceDI(e *harness.Env) {
 			}
 		}
 	})
+}
+
+// every table shape x every context (what precedes and follows the table, on which page) x every size
+// configuration: the table is at most as large as the maximum ("plain") or larger than it (tiny64 for all
+// shapes but 1x1, small200 for 4x3-two-words: "oversized")
+func spaceDITable(e *harness.Env) {
+	maxSuffix := 1
+	if e.Thorough() {
+		maxSuffix = 2
+	}
+	e.Note("bound_di_table", fmt.Sprintf("%d table shapes x contexts (prefix <=2, suffix <=%d over {H1,P,LP,IA,TB}) x page cut before the table x 18 size configurations", len(tableShapes), maxSuffix))
+	ctx := []kind{kH1, kP, kLP, kIA, kTB}
+	cfgs := diConfigs()
+	var prefixes, suffixes [][]kind
+	forSeqs(ctx, 2, true, func(q []kind) { prefixes = append(prefixes, append([]kind{}, q...)) })
+	forSeqs(ctx, maxSuffix, true, func(q []kind) { suffixes = append(suffixes, append([]kind{}, q...)) })
+	for _, sh := range tableShapes {
+		seen := map[string]bool{}
+		for _, pre := range prefixes {
+			for _, suf := range suffixes {
+				seq := append(append(append([]kind{}, pre...), kTB), suf...)
+				layouts := [][][]kind{{seq}}
+				if len(pre) > 0 {
+					layouts = append(layouts, [][]kind{seq[:len(pre)], seq[len(pre):]})
+				}
+				hasLP := false
+				for _, k := range seq {
+					hasLP = hasLP || k == kLP
+				}
+				for li, pages := range layouts {
+					f := docFeats(pages, 6)
+					key := fmt.Sprint(li, pages)
+					if seen[key] {
+						continue // the same document was reached with another prefix/suffix split (several tables)
+					}
+					seen[key] = true
+					for _, cfg := range cfgs {
+						if hasLP && cfg.lpWords > 10000 {
+							continue // 100 kB paragraphs x the three 32000-character presets are covered in space di
+						}
+						spec := docSpec{pages: pages, empty: -1, hrep: "elem", lpToks: cfg.lpWords, majorMax: 6, tbShape: sh.name}
+						base := desc("space", "di-table", "ck", "di", "cfg", cfg.name, "hrep", "elem", "pnum", 1, "empty", "none",
+							"skip", yn(f.skip), "pops", yn(f.pops), "tb", sh.name, "cut", li, "doc", spec.String())
+						mine, only := owned(e, base)
+						if !mine {
+							continue
+						}
+						evalCase(e, base, only, spec, false, cfg.chunk)
+					}
+				}
+			}
+		}
+	}
 }
 
 // every heading-level sequence, one body element after each heading
